@@ -177,6 +177,19 @@ def nesting_case(rng):
         chain = "".join("T%d : T%d; " % (i, i + 1) for i in range(d2))
         tail = rng.choice(["T%d : INT; " % d2, "T%d : T0; " % d2, "T%d : (a, b); " % d2, ""])
         return "TYPE " + chain + tail + "END_TYPE PROGRAM p VAR v : T0 := a; END_VAR END_PROGRAM"
+    # the same nest in every kind of POU (their bodies are laid out differently when rendered), also inside an action
+    w = rng.randrange(5)
+    if w == 0:
+        return "FUNCTION_BLOCK fb VAR x : INT; i : INT; y : BOOL; z : BOOL; END_VAR " + body + " END_FUNCTION_BLOCK"
+    if w == 1:
+        return "FUNCTION fn : INT VAR x : INT; i : INT; y : BOOL; z : BOOL; END_VAR " + body + " fn := 1; END_FUNCTION"
+    if w == 2 and kind in (3, 4, 5, 8):
+        # nested in the ELSE branches instead of the first ones
+        if kind == 3:
+            body = "IF x THEN x := 0; ELSE " * d + "x := 1;" + " END_IF;" * d
+        elif kind == 4:
+            body = "CASE x OF 1: x := 0; ELSE " * d + "x := 1;" + " END_CASE;" * d
+        return "FUNCTION_BLOCK fb VAR x : INT; i : INT; END_VAR " + body + " END_FUNCTION_BLOCK"
     return "PROGRAM p VAR x : INT; END_VAR " + body + " END_PROGRAM"
 
 
